@@ -141,7 +141,8 @@ pub fn gen_entry(r: &mut Rng, tier: Tier, big_ok: &mut bool) -> EntryKind {
                 let t = (gen_total(r, tier, big_ok) / 2).max(1).min(120_000);
                 mips.push(gen_blocks(r, t));
             }
-            EntryKind::Texture { header_len: if r.chance(2, 3) { 80 } else { r.range(1, 200) as usize }, mips, fill: r.next_u64() }
+            let layout = if r.chance(1, 4) { 1 + r.below(3) as u8 } else { 0 };
+            EntryKind::Texture { header_len: if r.chance(2, 3) { 80 } else { r.range(1, 200) as usize }, mips, fill: r.next_u64(), layout }
         }
         _ => {
             let lods = 1 + r.below(3) as u8;
@@ -237,6 +238,7 @@ pub fn directed() -> Vec<Doc> {
                 header_len: 80,
                 mips: vec![vec![b(16000, Mode::Miniz(9)), b(384, Mode::Raw)], vec![b(4096, Mode::Miniz(6))], vec![b(1024, Mode::Fixed)], vec![b(256, Mode::Stored)]],
                 fill: 9,
+                layout: 3,
             },
         },
         E2 {
@@ -722,13 +724,18 @@ pub fn shrink(b: &C02Doc) -> Vec<C02Doc> {
                     out.push(n);
                 }
             }
-            EntryKind::Texture { header_len, mips, fill } => {
+            EntryKind::Texture { header_len, mips, fill, layout } => {
+                if *layout != 0 {
+                    let mut n = b.clone();
+                    n.entries[ei].kind = EntryKind::Texture { header_len: *header_len, mips: mips.clone(), fill: *fill, layout: 0 };
+                    out.push(n);
+                }
                 if mips.len() > 1 {
                     for mi in 0..mips.len() {
                         let mut nm = mips.clone();
                         nm.remove(mi);
                         let mut n = b.clone();
-                        n.entries[ei].kind = EntryKind::Texture { header_len: *header_len, mips: nm, fill: *fill };
+                        n.entries[ei].kind = EntryKind::Texture { header_len: *header_len, mips: nm, fill: *fill, layout: *layout };
                         out.push(n);
                     }
                 }
@@ -740,7 +747,7 @@ pub fn shrink(b: &C02Doc) -> Vec<C02Doc> {
                         let mut nm = mips.clone();
                         nm[mi] = a;
                         let mut n = b.clone();
-                        n.entries[ei].kind = EntryKind::Texture { header_len: *header_len, mips: nm, fill: *fill };
+                        n.entries[ei].kind = EntryKind::Texture { header_len: *header_len, mips: nm, fill: *fill, layout: *layout };
                         out.push(n);
                     }
                 }
